@@ -292,7 +292,10 @@ def run(tier="quick"):
     # ---- V6 ordering agreement
     g = prog.need("spifconf_get_var")
     p_ = prog.need("spifconf_put_var")
-    ordfn = {X.callee_name(c) for c in X.calls_in(p_.body) if X.callee_name(c) in ("strcmp", "strcasecmp", "strcoll")}
+    from ..listrules import unit_closure as _uc
+    # the comparison the insertion orders the list with: in spifconf_put_var or in a unit-local search helper it calls
+    ordfn = {X.callee_name(c) for g_ in _uc(p_) if g_.body is not None and (g_ is p_ or g_.static)
+             for c in X.calls_in(g_.body) if X.callee_name(c) in ("strcmp", "strcasecmp", "strcoll")}
     gcfg = nullness.prepared_cfg(g, NORETURN)
     for lp in [n for n in walk(g.body) if n.get("k") in ("for", "while")]:
         for x in walk(lp["body"]):
